@@ -261,9 +261,10 @@ func c12Live(p Params) func() {
 		pp := pipes[vsched.Choose(len(pipes), "pipe")]
 		pr := protos[vsched.Choose(len(protos), "proto")]
 		// handler outcome: 0 result, 1 error status, 2 a result the body codec cannot encode (the framework falls back
-		// to an error reply), 3 panic, 4 no such route
-		outcome := vsched.Choose(5, "handler_outcome")
-		if pr == "http" && !(len(pp) == 0 || (len(pp) == 1 && pp[0] == 'g')) {
+		// to an error reply), 3 panic, 4 no such route, 5 result after the handler asked for one more registered filter
+		// and an unregistered one in the same call (the refusal of the latter is not reported to the handler)
+		outcome := vsched.Choose(6, "handler_outcome")
+		if pr == "http" && (outcome == 5 || !(len(pp) == 0 || (len(pp) == 1 && pp[0] == 'g'))) {
 			world.Counter("not_representable") // the HTTP-style protocol carries gzip as its only filter
 			return
 		}
@@ -274,6 +275,8 @@ func c12Live(p Params) func() {
 				return nil, erpc.NewStatus(1000, "no", "because")
 			case 3:
 				panic("boom")
+			case 5:
+				ctx.AddXferPipe('g', 31)
 			}
 			r := "r:" + *arg
 			return &r, nil
@@ -303,7 +306,7 @@ func c12Live(p Params) func() {
 		reqPipe, repPipe = pp, rec.replyPipe
 		ctxt := fmt.Sprintf("pipe %q over %s, handler outcome %d", pp, pr, outcome)
 		switch outcome {
-		case 0:
+		case 0, 5:
 			if !st.OK() || res != "r:x" {
 				vsched.Failf("call failed: %s %q | %s", world.StatStr(st), res, ctxt)
 			}
@@ -323,7 +326,12 @@ func c12Live(p Params) func() {
 		if !rec.seen {
 			vsched.Failf("no reply observed | %s", ctxt)
 		}
-		if !bytes.Equal(reqPipe, repPipe) && !(len(reqPipe) == 0 && len(repPipe) == 0) {
+		if outcome == 5 {
+			// the reply goes through the caller's pipe plus whatever the handler added
+			if !bytes.HasPrefix(repPipe, reqPipe) {
+				vsched.Failf("call sent through pipe %q but the reply frame carried pipe %q | %s", reqPipe, repPipe, ctxt)
+			}
+		} else if !bytes.Equal(reqPipe, repPipe) && !(len(reqPipe) == 0 && len(repPipe) == 0) {
 			vsched.Failf("call sent through pipe %q but the reply frame carried pipe %q | %s", reqPipe, repPipe, ctxt)
 		}
 		vsched.Logf("%s", ctxt)
